@@ -438,6 +438,20 @@ impl Engine for C12 {
             ));
         }
         v.push(Phase::new(
+            "syntactically valid programs: kind-agnostic expressions of <= 2 constructors x 27 contexts",
+            json!({"space": "programs", "k": 2}),
+        ));
+        v.push(Phase::new(
+            "syntactically valid programs: kind-agnostic expressions of 3 constructors x 27 contexts",
+            json!({"space": "programs", "k": 3}),
+        ));
+        if thorough {
+            v.push(Phase::new(
+                "syntactically valid programs: kind-agnostic expressions of 4 constructors x 27 contexts",
+                json!({"space": "programs", "k": 4}),
+            ));
+        }
+        v.push(Phase::new(
             "nesting families, depths 1..=200, each family one case",
             json!({"space": "families", "thorough": thorough}),
         ));
@@ -461,6 +475,34 @@ impl Engine for C12 {
             }
             return;
         }
+        if phase.param["space"] == "programs" {
+            // every generated program is inside the grammar: the memo table must be invisible on
+            // accepted input as well (a cached failure must never shadow a later success)
+            let k = phase.param["k"].as_u64().unwrap() as usize;
+            let all = crate::space::agnostic_exprs(k);
+            let sizes: Vec<usize> = if k == 2 { vec![1, 2] } else { vec![k] };
+            let mut idx = 0u64;
+            for sz in sizes {
+                for e in all[sz].iter() {
+                    for c in 0..crate::space::N_CONTEXTS {
+                        if sink.mine(idx) {
+                            if sink.expired() {
+                                return;
+                            }
+                            let printed = crate::gen::print(&crate::space::context(c, e));
+                            let text = printed.texts[0].1.clone();
+                            sink.visit(
+                                idx,
+                                || json!({"text": text, "made": "generated program"}),
+                                |s| to_outcome(check_text(&text, MAX_UNCACHED_WEIGHT), Some(s), Value::Null),
+                            );
+                        }
+                        idx += 1;
+                    }
+                }
+            }
+            return;
+        }
         let space = TextSpace::from_param(&phase.param);
         walk_texts(&space, sink, &describe_text, &|_, text, s| {
             to_outcome(check_text(text, MAX_UNCACHED_WEIGHT), Some(s), Value::Null)
@@ -478,7 +520,7 @@ impl Engine for C12 {
         to_outcome(check_text(text, MAX_UNCACHED_WEIGHT), None, case.clone())
     }
     fn rule(&self) -> String {
-        "token lists: every sequence of <= L tokens over the full alphabet (54) and of L+1..=L' over the reduced grammar alphabet, the corpus and all its 1-deviation token mutants, 25 nesting / chain / digit families. Each list is parsed by parse_program through Context::new(tokens) and Context::new(tokens).without_cache() (the latter only when the static nesting weight is <= 6, the uncached parser being exponential in it): identical pre-order dump (depth, node kind / token kind, span) and error list; with the memo table reads <= 64·n + 64; per family reads(d), d = 1..=200 (chains also 1000 and 10000, thorough 500..10000), has constant first differences. states = memoised (cursor, production) pairs, transitions = token reads with the memo table, both summed over all cases (hook Context::verif_counters); a family counts as one case".into()
+        "token lists: every sequence of <= L tokens over the full alphabet (54) and of L+1..=L' over the reduced grammar alphabet, the corpus and all its 1-deviation token mutants, 34 nesting / chain / digit families (closed, unclosed and mismatched brackets). Each list is parsed by parse_program through Context::new(tokens) and Context::new(tokens).without_cache() (the latter only when the static nesting weight is <= 6, the uncached parser being exponential in it): identical pre-order dump (depth, node kind / token kind, span) and error list; with the memo table reads <= 64·n + 64; per family reads(d), d = 1..=200 (chains also 1000 and 10000, thorough 500..10000), has constant first differences. states = memoised (cursor, production) pairs, transitions = token reads with the memo table, both summed over all cases (hook Context::verif_counters); a family counts as one case".into()
     }
     fn crash_signature(&self, kind: &str, _case: &Value) -> String {
         format!("{kind} | parser with and without memo table in-process | worker process died or stalled on one case")
